@@ -2789,6 +2789,28 @@ class Interp:
             for x in xs:
                 acc = self.call_value(args[0], [acc, x], {})
             return acc
+        if n == "heapq.merge":
+            # k-way merge of the heads: the smallest head goes next, ties to the earlier iterable (what CPython's
+            # merge does; on inputs that are not sorted the result is not sorted either -- exactly as in CPython)
+            key = kwargs.get("key")
+            rev = kwargs.get("reverse")
+            rev = bool(rev) and self.truth(rev)
+            qs = [list(self.iterate(a)) for a in args]
+            out = []
+            while any(qs):
+                best = None
+                for qi, q in enumerate(qs):
+                    if not q:
+                        continue
+                    if best is None:
+                        best = qi
+                        continue
+                    kb = qs[best][0] if key is None else self.call_value(key, [qs[best][0]], {})
+                    kq = q[0] if key is None else self.call_value(key, [q[0]], {})
+                    if (self._lt(kb, kq) if rev else self._lt(kq, kb)):
+                        best = qi
+                out.append(qs[best].pop(0))
+            return Lst(out)
         if n in ("bisect.bisect_left", "bisect.bisect_right", "bisect.bisect", "bisect.insort", "bisect.insort_left", "bisect.insort_right"):
             xs = args[0]
             if not isinstance(xs, Lst):
